@@ -89,8 +89,7 @@ Print Assumptions c07_builder_partial.
 (* the same with no hypothesis on the re-added NLRI: they are what the NLRI decoder produced from the octets of the message, and
    every such value is well-formed, of the builder's family, with a path identifier exactly when the builder's NLRI type parses one
    (c05_decoded_wellformed).  The type A of the builder = family [k], with path identifiers exactly when the session receives them
-   for [k].  What remains of "PARTIAL" is only the second point above: the attribute octets of the rebuilt message are characterised
-   through the attribute map (c07_attribute_map), not by decoding the rebuilt message as a whole. *)
+   for [k].  The attribute octets of the rebuilt message, decoded as a whole, are in c07_builder_complete below. *)
 Theorem c07_builder : forall cfg b u k m bd1 bd2 m',
   parse_update cfg b = Ok u -> wf_bytes b -> N.of_nat (3 * length b) <= 65535 ->
   a_pamap b u = Ok m ->
@@ -104,6 +103,29 @@ Theorem c07_builder : forall cfg b u k m bd1 bd2 m',
     a_mp_withdrawals m' u' = Ok (match bd_wd bd2 with Some w => Some (fam_code k, Some (map Ok w)) | None => None end).
 Proof. exact c07_builder_full_proof. Qed.
 Print Assumptions c07_builder.
+
+(* COMPLETE for four-octet sessions: the message the seeded builder emits is accepted, its path attributes are the MP_REACH_NLRI /
+   MP_UNREACH_NLRI it needs (one each, exactly when it announces / withdraws) followed by exactly the attributes of the original
+   message's map in key order - each decoding to the same attribute ([same_attr]: same type code; same owned value for recognised
+   types; same value octets with PARTIAL set for unrecognised ones; same value octets for malformed ones) - and its NLRI are the
+   NLRI of the original message.  (Under a two-octet session the builder still writes four-octet AS numbers - compose has no
+   width parameter - so the attribute clause is stated for the four-octet configuration, as in c07_direct.) *)
+Theorem c07_builder_complete : forall cfg b u k m bd1 bd2 m',
+  sc_four cfg = true ->
+  parse_update cfg b = Ok u -> wf_bytes b -> N.of_nat (3 * length b) <= 65535 ->
+  a_pamap b u = Ok m ->
+  let ap := rx_addpath cfg (fam_code k) in
+  add_announcements_from_pdu b u ap (mkB k None None m) = Ok bd1 -> add_withdrawals_from_pdu b u ap bd1 = Ok bd2 ->
+  into_message cfg bd2 = Ok (MOk m') ->
+  exists u' mp ws', parse_update cfg m' = Ok u' /\
+    a_path_attributes m' u' = map Ok (mp ++ ws') /\ Forall2 same_attr (map snd m) ws' /\
+    Forall (fun w => wattr_code w = 14 \/ wattr_code w = 15) mp /\
+    length mp = ((match bd_ann bd2 with Some _ => 1 | None => 0 end) + (match bd_wd bd2 with Some _ => 1 | None => 0 end))%nat /\
+    a_conv_withdrawals m' u' = Some [] /\ a_conv_announcements m' u' = Some [] /\
+    a_mp_announcements m' u' = Ok (match bd_ann bd2 with Some r => Some (fam_code k, Some (map Ok (r_ann r))) | None => None end) /\
+    a_mp_withdrawals m' u' = Ok (match bd_wd bd2 with Some w => Some (fam_code k, Some (map Ok w)) | None => None end).
+Proof. exact c07_builder_complete_proof. Qed.
+Print Assumptions c07_builder_complete.
 
 (* and the NLRI the seeded builder holds are exactly values of that kind *)
 Theorem c07_readded_wellformed : forall b u k ap m bd1 bd2,
